@@ -220,6 +220,9 @@ class Parser:
                 # the value stack is empty for the first token (e.g. a root GRID block)
                 value_stack = ip.parser_state.value_stack
                 previous = value_stack[-1] if value_stack else None
+                if isinstance(previous, str):
+                    # keywords are case-insensitive
+                    previous = previous.upper()
                 if t.type == "UNQUOTED_STRING":
                     # Unquoted strings after SYMBOL can only be values, not attributes
                     if (
